@@ -538,7 +538,10 @@ def _compute_form_ir(
 
     ir["num_constants"] = len(form_data.original_form.constants())
     ir["constant_ranks"] = [len(obj.ufl_shape) for obj in form_data.original_form.constants()]
-    ir["constant_shapes"] = [obj.ufl_shape for obj in form_data.original_form.constants()]
+    # Plain Python ints: the shapes are printed into the generated code
+    ir["constant_shapes"] = [
+        tuple(int(n) for n in obj.ufl_shape) for obj in form_data.original_form.constants()
+    ]
 
     ir["constant_names"] = [
         object_names.get(id(obj), f"c{j}")
